@@ -384,6 +384,26 @@ STRENGTHENED7 = {
  "C20/b": "C20 missed it; delivery demanded for every fragment order on a fresh receiver",
 }
 
+# round 8 (12 sub-agents, one seed each)
+NEEDS8 = {
+ "C02/a": "`ack_all` compares raw sequence fields: in-flight data straddles 2^31 (ISN just below it), tail segment lost, partial ACK -> retransmission timer switched off with data unacknowledged, poll_at None",
+ "C04/a": "RingBuffer::dequeue_many_with rewinds read_at when a dequeue empties the ring: out-of-order segment buffered, application drains the rx buffer completely, then the hole is filled -> stale reassembler offsets, zeros delivered",
+ "C05/a": "fast retransmission sized by flight_size() instead of the peer's window: segment in flight, peer SHRINKS its window to a non-zero value with a non-advancing ACK, then three identical duplicate ACKs",
+ "C09/a": "fragmentation-buffer fit test compares against the frame length (with the 14-octet Ethernet header): Ethernet, link MTU below the datagram, IP packet 1487..=1500 octets -> dequeued and never transmitted",
+ "C11/a": "has_solicited_node compares only the low 16 bits: IPv6 packet to a foreign solicited-node group ff02::1:ffXX:YYZZ sharing our last two octets",
+ "C12/a": "fragmenter-busy test hoisted out of the per-socket egress loop: two sockets each with a datagram above the MTU queued for the same poll -> the second is dequeued and dropped",
+ "C13/a": "tcp poll_at ignores the user timeout in TIME-WAIT while dispatch still enforces it: set_timeout < 10 s on the active closer, silence, poll before the announced deadline sends an RST",
+ "C16/a": "Cache::flush also resets silent_until: ARP request sent, update_ip_addrs() within the second, another packet to an unresolved neighbor",
+ "C17/a": "reset() keeps listen_endpoint (and the RST arm no longer saves it): listen, close, connect, simultaneous open -> SYN-RECEIVED, RST -> LISTEN instead of CLOSED",
+ "C18/a": "dhcp poll_at in the rebinding arm drops .min(expires_at): every RENEW and REBIND unanswered, caller sleeps until poll_at -> wake-up 57.5 s after the lease expired",
+ "C19/a": "parse_name label bound off by one: matching response with a CNAME whose rdata ends in a label one octet short -> slice panic",
+ "C20/a": "FRAG_N payload size computed with the FRAG_1 header length: both link addresses short (9-octet 802.15.4 header), FRAG_N of >= 105 octets -> 126-octet frame",
+}
+STRENGTHENED8 = {
+ "C05/a": "C05 missed it (sendmon only compared retransmissions with the HIGHEST edge ever given); with an in-order peer a retransmission must now also stay inside the window learned last (`C05/beyond-latest-window/retransmission`)",
+ "C09/a": "C09 missed it (C12 caught it); dgram gained the `mtu=1000` fragmentation-buffer-edge configurations (IP packets of 1486 / 1487 / 1500 octets on Ethernet and Medium::Ip)",
+}
+
 def next_letter(prop, used):
     for c in "abcdefghijklmnopqrstuvwxyz":
         if f"{prop}-{c}" not in used:
@@ -403,6 +423,8 @@ def main():
         NEEDS, STRENGTHENED = NEEDS6, STRENGTHENED6
     if rnd == 7:
         NEEDS, STRENGTHENED = NEEDS7, STRENGTHENED7
+    if rnd == 8:
+        NEEDS, STRENGTHENED = NEEDS8, STRENGTHENED8
     used = {os.path.basename(d) for d in glob.glob('/verif/seeded/*')}
     # seeds already stored by this script (origin_path recorded) are updated in place
     have = {}
